@@ -26,6 +26,12 @@ class Opaque:
     return cls._all[oid]
 
   def __repr__(self):
+    # some print as text that ends inside a bracket or a string: no literal form either (the tokenizer, not the
+    # parser, is what objects)
+    if self.oid % 100000 == 3:
+      return '[1, 2,'
+    if self.oid % 100000 == 8:
+      return "'abc"
     return f'<Opaque {self.oid} at 0x7f00>'
 
   def __deepcopy__(self, memo):
